@@ -242,7 +242,7 @@ func c09Run(c *core.Ctx, prod string, t reflect.Type, la string) {
 	}
 	for rep := 0; rep < reps; rep++ {
 		for _, cs := range c09Cases(prod, c.Tier) {
-			for _, lb := range gen.RowLayouts {
+			for _, lb := range operandLayouts(c) {
 				for _, mode := range cs.modes {
 					na, nb := model.Size(cs.sa), model.Size(cs.sb)
 					a, pa := ewBuild(c, t, cs.sa, la, gen.SmallGauss(t, na, c.Rng, -4, 6), nil, nil)
@@ -395,7 +395,7 @@ func c09Run(c *core.Ctx, prod string, t reflect.Type, la string) {
 func c09Trace(c *core.Ctx) {
 	for _, t := range model.NumTypes {
 		for _, shape := range [][]int{{2, 2}, {3, 3}, {2, 3}, {3, 2}, {4, 4}, {1, 3}, {3, 1}} {
-			for _, lay := range gen.RowLayouts {
+			for _, lay := range operandLayouts(c) {
 				n := model.Size(shape)
 				a, pa := ewBuild(c, t, shape, lay, gen.SmallInts(t, n, c.Rng, 1, 9), nil, nil)
 				if pa != "" {
